@@ -263,7 +263,7 @@ pub fn run(rep: &Report) {
                 toks.push(ops[o[j]].clone());
             }
         }
-        if i % 50021 == 0 {
+        if i % 50021 == 7_777 {
             l.sample(2, || json!(tok::render_spaced(&toks)));
         }
         if i % 81 == 0 && o[0] < 14 && o[1] < 14 {
